@@ -106,6 +106,26 @@ class PathCond:
                 self.test_atom[n.id] = (t, p)
                 if t not in atoms and (only is None or only(t)):
                     atoms.append(t)
+        # a flag variable `v = <boolean expression>` that is tested: its definition's leaves are tracked too, so that the
+        # relation v == expression (see _post) connects the test of v with the tests the expression stands for
+        changed = True
+        while changed:
+            changed = False
+            for n in cfg.nodes:
+                a_ = n.ast
+                if n.kind != "stmt" or not isinstance(a_, (ast.Assign, ast.AnnAssign)) or getattr(a_, "value", None) is None:
+                    continue
+                tg_ = a_.targets[0] if isinstance(a_, ast.Assign) and len(a_.targets) == 1 else (a_.target if isinstance(a_, ast.AnnAssign) else None)
+                if not (isinstance(tg_, ast.Name) and tg_.id in atoms) or not isinstance(a_.value, (ast.Compare, ast.BoolOp, ast.UnaryOp)):
+                    continue
+                if isinstance(a_.value, ast.UnaryOp) and not isinstance(a_.value.op, ast.Not):
+                    continue
+                if isinstance(a_.value, ast.BoolOp) and not all(isinstance(v_, (ast.Compare, ast.BoolOp, ast.UnaryOp, ast.Name)) for v_ in a_.value.values):
+                    continue          # `x or default`: a value, not a condition
+                for leaf in expr_atoms(a_.value):
+                    if leaf not in atoms and (only is None or only(leaf)):
+                        atoms.append(leaf)
+                        changed = True
         for a in extra_atoms:
             if a not in atoms:
                 atoms.append(a)
